@@ -74,6 +74,10 @@ impl ExtendedPrivateKey {
         let mut parent_fingerprint = vec![0; 4];
         cursor.read_exact(&mut parent_fingerprint)?;
         let index = cursor.read_u32::<BigEndian>()?;
+        // A master key (depth 0) has no parent: its parent fingerprint and child index must both be zero
+        if depth == 0 && (index != 0 || parent_fingerprint != [0u8; 4]) {
+            return Err(BSVErrors::GenericError("Extended private key has depth 0 but a non-zero parent fingerprint or index".into()));
+        }
 
         let mut chain_code = vec![0; 32];
         cursor.read_exact(&mut chain_code)?;
